@@ -42,29 +42,62 @@ LOOPS = {
 
 
 def apalache_pacing(rep):
-    """spec/apalache/Pacing.tla: the pacing arithmetic over unbounded integers; IndInv is inductive and implies Pacing (Apalache, SMT)"""
+    """spec/Pacing.tla: the pacing rule over unbounded integers (any budget, any growth factor >= 1, any sizes, any length).
+    IndInv is inductive and implies Pacing: three Apalache (SMT) obligations, and the same theorem proved by TLAPS (PacingProof.tla).
+    Heap.tla and TraceHeap.tla step-refine Pacing.tla (PROPERTY RefinesPacing in their configurations, checked by TLC).
+    Self-test: the same obligations on a copy whose AllocStep may skip a due collection must be refuted."""
+    import shutil
     import subprocess
-    d = os.path.join(vlib.SPEC, "apalache")
     out = os.path.join(vlib.WORK, "apalache")
+    shutil.rmtree(out, ignore_errors=True)
     os.makedirs(out, exist_ok=True)
+    for f in ("Pacing.tla", "PacingProof.tla"):
+        shutil.copy(os.path.join(vlib.SPEC, f), out)
+    broken = os.path.join(out, "broken")
+    os.makedirs(broken, exist_ok=True)
+    src = open(os.path.join(vlib.SPEC, "Pacing.tla")).read()
+    guard = "    /\\ pendingCollect \\/ bytes < threshold    \\* no due collection was skipped\n"
+    assert guard in src, "Pacing.tla: the guard of AllocStep was not found"
+    open(os.path.join(broken, "Pacing.tla"), "w").write(src.replace(guard, ""))
     steps = [("base case Init => IndInv", ["--init=Init", "--inv=IndInv", "--length=0"]),
              ("inductive step IndInv /\\ Next => IndInv'", ["--init=IndInit", "--inv=IndInv", "--length=1"]),
              ("IndInv => Pacing", ["--init=IndInit", "--inv=Pacing", "--length=0"])]
     done = []
+
+    def apalache(cwd, args):
+        return subprocess.run(["timeout", "600", "apalache-mc", "check", "--cinit=ConstInit", "--out-dir=" + os.path.join(out, "run")] + args + ["Pacing.tla"],
+                              cwd=cwd, capture_output=True, text=True)
     for what, args in steps:
         try:
-            p = subprocess.run(["timeout", "600", "apalache-mc", "check", "--cinit=ConstInit", "--out-dir=" + out] + args + ["Pacing.tla"],
-                               cwd=d, capture_output=True, text=True)
+            p = apalache(out, args)
         except Exception as e:  # noqa
             rep.assumptions.append("Apalache could not be run (%s); the unbounded pacing argument was skipped" % e)
             return done
         if "EXITCODE: OK" in p.stdout:
-            done.append(what)
+            done.append("apalache: " + what)
         elif "EXITCODE: ERROR (12)" in p.stdout:
             rep.violation("Pacing.tla: Apalache refutes '%s'\n%s" % (what, p.stdout[-1500:]), {"apalache": p.stdout[-4000:]})
         else:
             rep.assumptions.append("Apalache ended abnormally on '%s' (exit %s); the unbounded pacing argument was skipped" % (what, p.returncode))
             return done
+    p = apalache(broken, steps[1][1])
+    if "EXITCODE: ERROR (12)" in p.stdout:
+        done.append("apalache self-test: without AllocStep's guard (a due collection may be skipped) the inductive step is refuted")
+    elif "EXITCODE: OK" in p.stdout:
+        raise vlib.ToolError("Pacing.tla self-test: Apalache accepts the inductive step although a due collection may be skipped")
+    try:
+        p = subprocess.run(["timeout", "600", "tlapm", "--threads", "4", "PacingProof.tla"], cwd=out, capture_output=True, text=True)
+        txt = p.stdout + p.stderr
+        import re
+        m = re.search(r"All (\d+) obligations? proved", txt)
+        if m:
+            done.append("tlaps: THEOREM Spec => []Pacing, %s obligations proved" % m.group(1))
+        elif re.search(r"obligations? failed", txt):
+            rep.violation("PacingProof.tla: TLAPS fails to prove the pacing theorem\n%s" % txt[-1500:], {"tlapm": txt[-4000:]})
+        else:
+            rep.assumptions.append("tlapm ended abnormally (exit %s); the TLAPS proof of the pacing theorem was skipped" % p.returncode)
+    except Exception as e:  # noqa
+        rep.assumptions.append("tlapm could not be run (%s); the TLAPS proof of the pacing theorem was skipped" % e)
     return done
 
 
